@@ -51,7 +51,19 @@ func RunJob(j *Job, run func(t *Tape, profile, tier string) *RunResult) error {
 	defer bw.Flush()
 	enc := json.NewEncoder(bw)
 	start := time.Now()
-	emit := func(r *RunResult) error { return enc.Encode(r) }
+	// every result is flushed at once and every run announces itself first, so
+	// that a run that kills the process (fatal out-of-memory, stack exhaustion)
+	// can be named by the driver
+	emit := func(r *RunResult) error {
+		if err := enc.Encode(r); err != nil {
+			return err
+		}
+		return bw.Flush()
+	}
+	begin := func(run uint64) {
+		enc.Encode(map[string]uint64{"begin": run})
+		bw.Flush()
+	}
 	if j.Mode == "shrink" {
 		max := j.MaxRuns
 		if max == 0 {
@@ -70,6 +82,7 @@ func RunJob(j *Job, run func(t *Tape, profile, tier string) *RunResult) error {
 	}
 	if j.Replay != nil || j.Mode == "replay" {
 		t := ReplayTape(j.Replay)
+		begin(0)
 		r := run(t, j.Profile, j.Tier)
 		r.Seed = j.Seed
 		r.Tape = t.Recording()
@@ -85,6 +98,7 @@ func RunJob(j *Job, run func(t *Tape, profile, tier string) *RunResult) error {
 		}
 		runIdx := j.RunStart + i*step
 		t := NewTape(j.Seed, runIdx)
+		begin(runIdx)
 		r := run(t, j.Profile, j.Tier)
 		r.Seed, r.Run = j.Seed, runIdx
 		if j.WantTape || len(r.Violations) > 0 || r.HarnessErr != "" {
